@@ -25,8 +25,6 @@ import (
 	"time"
 
 	"github.com/influxdata/influxdb/services/meta"
-
-	"verifharness/internal/ev"
 )
 
 // ----------------------------------------------------------- wire parsing
@@ -1020,7 +1018,7 @@ func hexShort(b []byte) string {
 }
 
 func runWedge() {
-	base := ev.TempDir("c07w")
+	base := tempDir("c07w")
 	defer os.RemoveAll(base)
 	cases := buildBodies(r.Rand("wedge"), r.Thorough())
 	if v := os.Getenv("C07_WEDGE_MAX"); v != "" {
